@@ -148,6 +148,11 @@ def gen_case(rnd, prop, tier):
     d = rnd.choice([2, 3, 3, 4]) if mech != 'aim' else rnd.choice([2, 3, 3])
     attrs = ['a', 'b', 'c', 'd', 'e'][:d] if rnd.random() < 0.5 else rnd.sample(['age', 'sex', 'inc', 'zip', 'edu', 'x1', 'k'], d)
     sizes = [rnd.randint(2, 4) for _ in attrs]
+    if mech == 'adagrid' and rnd.random() < 0.1:
+        # a wide table: more than 100 candidate pairs in the selection step
+        d = rnd.choice([16, 17])
+        attrs = ['w%02d' % i for i in range(d)]
+        sizes = [2] * d
     n = rnd.choice([2, 5, 20, 20, 60, 150, 300])
     # skewed cell probabilities so that rare and populated cells exist
     weights = [[rnd.random() ** 3 + 0.02 for _ in range(s)] for s in sizes]
@@ -187,7 +192,7 @@ def gen_case(rnd, prop, tier):
                       alpha=rnd.choice([0.9, 0.9, 0.5, 0.2]), workload=wl, maxsize_mb=rnd.choice([25, 25, 25, 1e-3, 6e-4, 3e-4]))
     elif mech == 'adagrid':
         tg = []
-        if d >= 3 and rnd.random() < 0.3:
+        if 3 <= d <= 5 and rnd.random() < 0.3:
             tg = [rnd.choice(attrs)]
         params = dict(threshold=rnd.choice([0.0, 3.0, 5.0]), targets=tg, split=rnd.choice([None, None, [0.1, 0.1, 0.8], [1, 2, 3]]),
                       warm_start=rnd.random() < 0.5)
